@@ -167,3 +167,31 @@ Proof.
     + split; [intros _; split; [apply Hnil; reflexivity|discriminate]|auto].
     + split; [discriminate|]. intros [Hall _]. apply Hnil in Hall. congruence.
 Qed.
+
+(** ** the global-storage middleware: flush phase, then the copy *)
+Lemma mk_reqs_flush_ids n : map fst (mk_reqs n 0) = map N.of_nat (seq 0 n).
+Proof. unfold mk_reqs. cbn. rewrite app_nil_r, map_map. reflexivity. Qed.
+
+Lemma mk_reqs_nodup n : NoDup (map fst (mk_reqs n 0)).
+Proof.
+  rewrite mk_reqs_flush_ids. generalize 0%nat. induction n as [|n IH]; intros a; cbn; [constructor|].
+  constructor; [|apply IH]. intros Hin. apply in_map_iff in Hin as (x & E & Hx). apply in_seq in Hx. lia.
+Qed.
+
+Lemma magic_completes_iff nflush evs :
+  let s := crun (cstart_magic nflush) evs in
+  cc_crashed s = false ->
+  (cc_done s <= 1)%nat /\
+  (cc_done s = 1%nat <-> forall i, (i < nflush)%nat -> In (N.of_nat i) (rsp_ids evs)).
+Proof.
+  intros s Hc. subst s. destruct nflush as [|n]; cbn [cstart_magic] in *.
+  - change (crun (cstep (cstart []) CTick) evs) with (crun (cstart []) (CTick :: evs)) in *.
+    destruct (completes_iff [] (CTick :: evs) (NoDup_nil _) Hc) as (A & B & _).
+    split; [exact A|]. split; [intros _ i Hi; lia|]. intros _. apply B. split; [intros r []|reflexivity].
+  - destruct (completes_iff (mk_reqs (S n) 0) evs (mk_reqs_nodup (S n)) Hc) as (A & B & _).
+    split; [exact A|]. rewrite B. split.
+    + intros [Hall _] i Hi. specialize (Hall (N.of_nat i, QFlush)). apply Hall.
+      unfold mk_reqs. rewrite app_nil_r. apply in_map_iff. exists i. split; [reflexivity|]. apply in_seq. lia.
+    + intros Hall. split; [|discriminate]. intros r Hr. unfold mk_reqs in Hr. rewrite app_nil_r in Hr.
+      apply in_map_iff in Hr as (i & <- & Hi). apply in_seq in Hi. apply Hall. lia.
+Qed.
